@@ -527,7 +527,9 @@ class HealSparseMap(object):
             if self._is_wide_mask:
                 values = np.full(self._wide_mask_width, self._sentinel)
             elif self._is_rec_array:
-                values = np.zeros(1, dtype=self._sparse_map.dtype)
+                # The blank record (primary set to the sentinel, every other
+                # field set to its own sentinel) is held in the overflow block.
+                values = self._sparse_map[0: 1].copy()
                 values[self._primary] = self._sentinel
             else:
                 values = self._sentinel
